@@ -10,6 +10,8 @@ import (
 	"github.com/conduitio/conduit/pkg/connector"
 	"github.com/conduitio/conduit/pkg/lifecycle"
 	"github.com/conduitio/conduit/pkg/pipeline"
+	"github.com/conduitio/conduit/pkg/processor"
+	"github.com/conduitio/conduit/pkg/provisioning"
 	"verif/harness/gen"
 )
 
@@ -17,7 +19,13 @@ import (
 // service (StopAndWait / Start / ReconfigureProcessor outcomes are inputs; a successful stop
 // leaves the pipeline user-stopped, a successful start running) on the fault-injecting DB.
 //
-//	live <cfg> <allow> <stale> <stopOk> <startOk> <reconf|-> [flip] [!k]   plus imp / ss / st as in `import`
+//	live <cfg> <allow> <hash> <stopOk> <startOk> <reconf|-> [flip] [!k]   plus imp / ss / st as in `import`
+//	plan <cfg>                      Plan(cfg): output = the changes (resource:id:action:effect:paths:live), the REAL hash is kept
+//	xcu <id> <plugin> <name> <settings> | xru <id> <plugin> <settings> <workers> | xpu <id> <name> <desc>
+//	                                out-of-band change through the connector / processor / pipeline service
+//
+// <hash>: 0 = hash of a plan computed just now, 1 = bogus, 2 = the hash kept by the last `plan`
+// step — the real Diff.computeHash decides staleness, the model compares the plan views.
 //
 // `flip`: an external Start sets the pipeline Running between ApplyPlanLive's first status read
 // and its re-read (the TOCTOU window the re-read closes; the authorisation gate must see it).
@@ -28,7 +36,7 @@ func init() {
 }
 
 func ntLive(line, res string) bool {
-	return strings.Contains(line, " flip") || strings.Contains(res, "#stop") || strings.Contains(res, "reconf") || strings.Contains(res, "stale#") || strings.Contains(res, "unauth#")
+	return strings.Contains(line, " flip") || strings.Contains(line, "plan ") || strings.Contains(res, "#stop") || strings.Contains(res, "reconf") || strings.Contains(res, "stale#") || strings.Contains(res, "unauth#")
 }
 
 var errFakeLifecycle = errors.New("verif: scripted lifecycle failure")
@@ -82,6 +90,22 @@ func (f *fakeLifecycle) ReconfigureProcessor(_ context.Context, _, processorID s
 	return errFakeLifecycle
 }
 
+// showChanges renders a Diff's changes: resource:id:action:effect:paths:liveSwappable.
+func showChanges(w *world, d provisioning.Diff) string {
+	if len(d.Changes) == 0 {
+		return "empty"
+	}
+	out := make([]string, len(d.Changes))
+	for i, c := range d.Changes {
+		l := 0
+		if c.LiveSwappable {
+			l = 1
+		}
+		out[i] = fmt.Sprintf("%s:%s:%s:%s:%s:%d", c.Resource, w.abs(c.ID, -1), c.Action, c.Effect, strings.Join(c.ConfigPaths, "+"), l)
+	}
+	return strings.Join(out, ",")
+}
+
 func liveErrClass(err error) string {
 	switch {
 	case err == nil:
@@ -104,6 +128,7 @@ func runLive(line string) string {
 	w.db.onCommit = func() { fl.log = append(fl.log, "commit") }
 	ctx := context.Background()
 	var outs []string
+	keptHash := "bogus"
 	const universe = 999
 	for _, ops := range strings.Split(line, ";") {
 		f := strings.Fields(ops)
@@ -135,8 +160,8 @@ func runLive(line string) string {
 			if !ok {
 				return "bad-op"
 			}
-			for _, b := range f[2:6] {
-				if b != "0" && b != "1" {
+			for j, b := range f[2:6] {
+				if b != "0" && b != "1" && !(j == 1 && b == "2") {
 					return "bad-op"
 				}
 			}
@@ -153,8 +178,11 @@ func runLive(line string) string {
 			cfg := pc.toConfig()
 			d, perr := w.prov.Plan(ctx, cfg)
 			hash := d.Hash
-			if f[3] == "1" {
+			switch f[3] {
+			case "1":
 				hash = "bogus"
+			case "2": // the REAL hash of the plan computed by the last `plan` step
+				hash = keptHash
 			}
 			cls := func() (cls string) {
 				defer func() {
@@ -214,6 +242,43 @@ func runLive(line string) string {
 			}()
 			after, _ := planStr(w, ctx, cfg)
 			outs = append(outs, cls+"#"+before+"#"+exportStr(w, ctx, cfg.ID)+"#"+after+"#"+w.observe(universe))
+		case "plan":
+			if len(f) != 2 {
+				return "bad-op"
+			}
+			pc, ok := parsePipeCfg(f[1])
+			if !ok {
+				return "bad-op"
+			}
+			d, err := w.prov.Plan(ctx, pc.toConfig())
+			if err != nil {
+				keptHash = "bogus"
+				outs = append(outs, "-")
+				break
+			}
+			keptHash = d.Hash
+			outs = append(outs, showChanges(w, d))
+		case "xcu", "xru", "xpu":
+			var a []int
+			for _, x := range f[1:] {
+				n, err := strconv.Atoi(x)
+				if err != nil {
+					return "bad-op"
+				}
+				a = append(a, n)
+			}
+			var err error
+			switch {
+			case f[0] == "xcu" && len(a) == 4:
+				_, err = w.cn.Update(ctx, xid(a[0]), cpluginOf(a[1]), connector.Config{Name: nameOf(a[2]), Settings: csettingsOf(a[3])})
+			case f[0] == "xru" && len(a) == 4:
+				_, err = w.pr.UpdateWhileRunning(ctx, xid(a[0]), ppluginOf(a[1], false), processor.Config{Settings: psettingsOf(a[2]), Workers: a[3]})
+			case f[0] == "xpu" && len(a) == 3:
+				_, err = w.pl.Update(ctx, xid(a[0]), pipeline.Config{Name: nameOf(a[1]), Description: descOf(a[2])})
+			default:
+				return "bad-op"
+			}
+			outs = append(outs, errClass(err)+"#"+w.observe(universe))
 		case "ss", "st":
 			if len(f) != 3 {
 				return "bad-op"
@@ -241,7 +306,108 @@ func runLive(line string) string {
 	return strings.Join(outs, " | ") + " mon=ok"
 }
 
+// genStaleHash: Plan(desired) at T1 keeps the real hash; the live state is then changed through
+// another route (or not); ApplyPlanLive(desired, kept hash) must be refused as stale iff the plan
+// computed now differs from the reviewed one — in the set of changes OR only in their config paths.
+func genStaleHash(r *gen.Rand, o *gen.Out) string {
+	g := &impGen{r: r, nextID: 10}
+	c := g.newPipe(1)
+	for len(c.conns) == 0 || len(c.procs) == 0 {
+		c = g.newPipe(1)
+	}
+	ops := []string{"imp " + c.String()}
+	if r.Chance(1, 2) {
+		ops = append(ops, "st 1 1")
+	}
+	// the reviewed change: one field of one connector (or a processor field / the description)
+	n := c
+	n.conns = append([]connCfg(nil), c.conns...)
+	n.procs = append([]procCfg(nil), c.procs...)
+	ci := r.Intn(len(c.conns))
+	cc := c.conns[ci]
+	planned := r.Pick(4, 3, 2, 2)
+	switch planned {
+	case 0:
+		n.conns[ci].name = cc.name%9 + 1
+	case 1:
+		n.conns[ci].settings = cc.settings%3 + 1
+	case 2:
+		n.conns[ci].plugin = 2
+	default:
+		n.procs[0].settings = (c.procs[0].settings + 1) % 3
+	}
+	ops = append(ops, "plan "+n.String())
+	// the out-of-band change
+	switch r.Pick(2, 4, 3, 2, 2, 2) {
+	case 0:
+		o.Count("oob=none")
+	case 1: // another field of the same connector: same set of changes, different config paths
+		nm, st, pg := cc.name, cc.settings, cc.plugin
+		switch planned {
+		case 0:
+			st = cc.settings%3 + 1
+		case 1:
+			nm = cc.name%9 + 1
+		default:
+			if r.Chance(1, 2) {
+				nm = cc.name%9 + 1
+			} else {
+				st = cc.settings%3 + 1
+			}
+		}
+		ops = append(ops, fmt.Sprintf("xcu %d %d %d %d", cc.id, pg, nm, st))
+		o.Count("oob=same-connector-other-field")
+	case 2: // the same field, another old value: the plan computed now has the same content
+		nm, st, pg := cc.name, cc.settings, cc.plugin
+		switch planned {
+		case 0:
+			nm = (cc.name+1)%9 + 1
+		case 1:
+			st = (cc.settings+1)%3 + 1
+		case 2:
+			pg = 3
+		default:
+			nm = cc.name // nothing
+		}
+		ops = append(ops, fmt.Sprintf("xcu %d %d %d %d", cc.id, pg, nm, st))
+		o.Count("oob=same-field-other-old-value")
+	case 3: // the live state already equals the desired one: the change disappears
+		d := n.conns[ci]
+		ops = append(ops, fmt.Sprintf("xcu %d %d %d %d", d.id, d.plugin, d.name, d.settings))
+		o.Count("oob=already-applied")
+	case 4: // another resource: a processor of the pipeline
+		p := c.procs[len(c.procs)-1]
+		w := p.workers
+		if r.Chance(1, 3) {
+			w = p.workers%3 + 1
+		}
+		ops = append(ops, fmt.Sprintf("xru %d %d %d %d", p.id, p.plugin, (p.settings+1)%3, w))
+		o.Count("oob=other-processor")
+	default: // the pipeline itself
+		ops = append(ops, fmt.Sprintf("xpu 1 %d %d", c.name, (c.desc+1)%3))
+		o.Count("oob=pipeline")
+	}
+	allow := 1
+	if r.Chance(1, 6) {
+		allow = 0
+	}
+	rc := "-"
+	if r.Chance(1, 3) {
+		rc = strconv.Itoa(r.Pick(3, 2, 1))
+	}
+	ops = append(ops, fmt.Sprintf("live %s %d 2 1 1 %s", n.String(), allow, rc))
+	// and once more with a fresh hash: must never be stale
+	if r.Chance(1, 3) {
+		ops = append(ops, fmt.Sprintf("live %s 1 0 1 1 -", n.String()))
+	}
+	o.Count("scenario=stale-hash")
+	return strings.Join(ops, ";")
+}
+
 func genLive(r *gen.Rand, o *gen.Out, _ int) string {
+	if r.Chance(1, 3) {
+		return genStaleHash(r, o)
+	}
 	g := &impGen{r: r, nextID: 10}
 	c := g.newPipe(1)
 	ops := []string{"imp " + c.String()}
